@@ -1,4 +1,5 @@
 import Glom.Spec.C06
+import Glom.Spec.C06Heap
 namespace Glom.C06
 
 variable {P H O R : Type}
@@ -197,27 +198,46 @@ theorem mem_regOps_of_kw (kw : List (String × Tag)) (op : String) (h : Tag) (hk
   have hm := assocGet_mem hk
   exact List.mem_map.mpr ⟨(op, h), hm, rfl⟩
 
-/-- after `register(X, op=h)`, a type whose nearest registered base (for `op`) is `X` resolves to `h` -/
-theorem firstRegistered_register (entries : List ((String × String) × Tag)) (X : String)
-    (kw : List (String × Tag)) (op : String) (h : Tag) (hk : assocGet kw op = some h) :
-    ∀ (mro : List String), X ∈ mro →
-      (∀ c, c ∈ mro.takeWhile (· != X) → assocGet entries (c, op) = none) →
-      firstRegistered (newEntries entries X kw ++ entries) op mro = some h := by
-  intro mro
-  induction mro with
+/-- after `register(X, op=h)` (not `exact`, or `X` is the looked-up type itself), a type whose nearest
+    registered candidate (for `op`) is `X` resolves to `h` -/
+theorem firstRegistered_register (entries : List ((String × String) × Tag)) (fuzzy : List (String × String))
+    (X : String) (kw : List (String × Tag)) (op : String) (h : Tag) (hk : assocGet kw op = some h)
+    (sub : String) (exact : Bool) (hex : exact = false ∨ X = sub) :
+    ∀ (cands : List String), X ∈ cands →
+      (∀ c, c ∈ cands.takeWhile (· != X) → assocGet entries (c, op) = none) →
+      firstRegistered (handlerVia (newEntries entries X kw ++ entries)
+        (if exact then fuzzy else (regOps kw).map (fun op => (X, op)) ++ fuzzy) sub op) cands = some h := by
+  intro cands
+  induction cands with
   | nil => intro hx; cases hx
   | cons c cs ih =>
     intro hx hbefore
     by_cases hc : c = X
     · subst hc
-      simp only [firstRegistered, assocGet_append]
+      have hcond : (c == sub || (if exact then fuzzy else (regOps kw).map (fun op => (c, op)) ++ fuzzy).contains (c, op)) = true := by
+        rcases hex with he | he
+        · subst he
+          simp only [Bool.false_eq_true, if_false, Bool.or_eq_true]
+          right
+          rw [List.contains_iff_mem]
+          apply List.mem_append_left
+          exact List.mem_map.mpr ⟨op, mem_regOps_of_kw kw op h hk, rfl⟩
+        · subst he; simp
+      simp only [firstRegistered, handlerVia, hcond, if_true, assocGet_append]
       rw [assocGet_newEntries_same _ _ _ _ (mem_regOps_of_kw kw op h hk)]
       simp [pickTag, hk]
     · have hne : (c != X) = true := by simp [hc]
       have hnone : assocGet entries (c, op) = none := by
         apply hbefore c
         simp [List.takeWhile, hne]
-      simp only [firstRegistered, assocGet_append, assocGet_newEntries_other _ _ _ _ _ hc, hnone, Option.or]
+      have hv : handlerVia (newEntries entries X kw ++ entries)
+          (if exact then fuzzy else (regOps kw).map (fun op => (X, op)) ++ fuzzy) sub op c = none := by
+        have hn2 : assocGet (newEntries entries X kw ++ entries) (c, op) = none := by
+          rw [assocGet_append, assocGet_newEntries_other _ _ _ _ _ hc, hnone]; rfl
+        unfold handlerVia
+        rw [hn2]
+        simp
+      simp only [firstRegistered, hv]
       apply ih
       · rcases List.mem_cons.mp hx with h1 | h1
         · exact absurd h1.symm hc
@@ -226,6 +246,47 @@ theorem firstRegistered_register (entries : List ((String × String) × Tag)) (X
         apply hbefore c'
         simp only [List.takeWhile, hne]
         exact List.mem_cons_of_mem _ hc'
+
+theorem firstRegistered_congr (f g : String → Option Tag) (l : List String) (hfg : ∀ c, c ∈ l → f c = g c) :
+    firstRegistered f l = firstRegistered g l := by
+  induction l with
+  | nil => rfl
+  | cons c cs ih =>
+    simp only [firstRegistered]
+    rw [hfg c (List.mem_cons_self)]
+    cases g c with
+    | some h => rfl
+    | none => exact ih (fun c' hc' => hfg c' (List.mem_cons_of_mem _ hc'))
+
+theorem takeWhile_append_of_mem {α : Type} (p : α → Bool) (l r : List α) (x : α) (hx : x ∈ l) (hp : p x = false) :
+    (l ++ r).takeWhile p = l.takeWhile p := by
+  induction l with
+  | nil => cases hx
+  | cons a as ih =>
+    simp only [List.cons_append, List.takeWhile]
+    cases hpa : p a with
+    | false => rfl
+    | true =>
+      simp only
+      congr 1
+      apply ih
+      rcases List.mem_cons.mp hx with h1 | h1
+      · subst h1; rw [hp] at hpa; cases hpa
+      · exact h1
+
+/-- an `exact=True` registration of a type that is not in the tree is invisible to every other type -/
+theorem handlerVia_register_exact_other (entries : List ((String × String) × Tag)) (fuzzy : List (String × String))
+    (X sub op : String) (kw : List (String × Tag)) (hne : sub ≠ X) (hnf : fuzzy.contains (X, op) = false) (c : String) :
+    handlerVia (newEntries entries X kw ++ entries) fuzzy sub op c = handlerVia entries fuzzy sub op c := by
+  unfold handlerVia
+  by_cases hc : c = X
+  · subst hc
+    have h1 : (c == sub) = false := by
+      simp only [beq_eq_false_iff_ne, ne_eq]; exact fun hh => hne hh.symm
+    have hnf' : (c, op) ∉ fuzzy := by
+      intro hm; rw [← List.contains_iff_mem] at hm; rw [hnf] at hm; cases hm
+    simp [h1, hnf']
+  · rw [assocGet_append, assocGet_newEntries_other _ _ _ _ _ hc]; rfl
 
 /-! ### wildcard traversal -/
 
@@ -389,5 +450,595 @@ theorem runVOps_spec {V : Type} (ops : List (VOp V)) :
       simp only [runVOps, runVOpsPure]
       obtain ⟨h1, h2, h3⟩ := ih h a ha
       exact ⟨by rw [h1], h2, h3⟩
+
+/-! ## the heap model of `Model/C06Heap.lean` -/
+
+/-! ### the heap only grows -/
+
+theorem Ext.refl (h : Heap) : Ext h h := ⟨[], by simp⟩
+
+theorem Ext.trans {a b c : Heap} (h1 : Ext a b) (h2 : Ext b c) : Ext a c := by
+  obtain ⟨e1, rfl⟩ := h1
+  obtain ⟨e2, rfl⟩ := h2
+  exact ⟨e1 ++ e2, by simp⟩
+
+theorem Ext.push (h : Heap) (o : Obj) : Ext h (h ++ [o]) := ⟨[o], rfl⟩
+
+theorem Ext.length_le {a b : Heap} (h : Ext a b) : a.length ≤ b.length := by
+  obtain ⟨e, rfl⟩ := h; simp
+
+theorem Ext.take {a b : Heap} (h : Ext a b) : b.take a.length = a := by
+  obtain ⟨e, rfl⟩ := h; simp
+
+theorem Ext.get {a b : Heap} (h : Ext a b) (i : Nat) (hi : i < a.length) : b[i]? = a[i]? := by
+  obtain ⟨e, rfl⟩ := h
+  exact List.getElem?_append_left hi
+
+theorem FreshFrom.mono {n m : Nat} {v : Val} (h : FreshFrom m v) (hnm : n ≤ m) : FreshFrom n v :=
+  fun a ha => Nat.le_trans hnm (h a ha)
+
+theorem freshFrom_ref (n : Nat) : FreshFrom n (.ref n) := by
+  intro a ha; cases ha; exact Nat.le_refl _
+
+theorem ofScalarPV_not_ref {p : PV} {v : Val} (h : ofScalarPV p = some v) : ∀ a, v ≠ .ref a := by
+  intro a hv
+  subst hv
+  cases p <;> simp [ofScalarPV] at h
+
+theorem liftPV_not_ref {r : Except PyExc PV} {v : Val} (h : liftPV r = .ok v) : ∀ a, v ≠ .ref a := by
+  unfold liftPV at h
+  split at h
+  · split at h
+    · rename_i hv
+      cases h
+      exact ofScalarPV_not_ref hv
+    · cases h
+  · cases h
+
+/-- a Python-level operation that never writes an existing cell and whose value, when it is an
+    object, is a new one -/
+def GoodRes (h : Heap) (r : Res) : Prop := Ext h r.2 ∧ ∀ v, r.1 = .ok v → FreshFrom h.length v
+
+theorem good_alloc (h : Heap) (o : Obj) : GoodRes h (alloc h o) :=
+  ⟨Ext.push h o, by intro v hv; cases hv; exact freshFrom_ref _⟩
+
+theorem good_err (h : Heap) (e : PyExc) : GoodRes h (errR h e) :=
+  ⟨Ext.refl h, by intro v hv; cases hv⟩
+
+theorem good_lift (h : Heap) (r : Except PyExc PV) : GoodRes h (liftPV r, h) :=
+  ⟨Ext.refl h, by intro v hv a ha; exact absurd ha (liftPV_not_ref hv a)⟩
+
+theorem good_seqRep (h : Heap) (mk : List Val → Obj) (xs : List Val) (n : PV) : GoodRes h (seqRep h mk xs n) := by
+  unfold seqRep
+  split
+  · split
+    · exact good_err _ _
+    · exact good_alloc _ _
+  · exact good_err _ _
+
+theorem good_binSh (b : BinOp) (h : Heap) (x y : Sh) : GoodRes h (binSh b h x y) := by
+  unfold binSh
+  repeat' split
+  all_goals first
+    | exact good_err _ _
+    | exact good_alloc _ _
+    | exact good_seqRep _ _ _ _
+
+theorem good_aBin (b : BinOp) (h : Heap) (x y : Val) : GoodRes h (aBin b h x y) := by
+  unfold aBin
+  split
+  · exact good_lift _ _
+  · exact good_binSh _ _ _ _
+
+theorem good_aUn (u : UnOp) (h : Heap) (x : Val) : GoodRes h (aUn u h x) := by
+  unfold aUn
+  split
+  · exact good_lift _ _
+  · split <;> exact good_err _ _
+
+theorem seqItem_heap (h : Heap) (xs : List Val) (key : Val) : (seqItem h xs key).2 = h := by
+  unfold seqItem
+  repeat' split
+  all_goals rfl
+
+/-- `cur[arg]` only reads the heap -/
+theorem aGetitem_heap (h : Heap) (cur key : Val) : (aGetitem h cur key).2 = h := by
+  unfold aGetitem
+  repeat' split
+  all_goals first | rfl | exact seqItem_heap _ _ _
+
+theorem guard6_heap (r : Res) : (guard6 r).2 = r.2 := by
+  unfold guard6
+  repeat' split
+  all_goals rfl
+
+theorem guard6_ok {r : Res} {v : Val} (h : (guard6 r).1 = .ok v) : r.1 = .ok v := by
+  unfold guard6 at h
+  split at h
+  · rename_i hv; simp at h; rw [hv, h]
+  · split at h <;> simp at h
+
+theorem raise6_heap (h : Heap) (e : PyExc) : (raise6 h e).2 = h := by
+  unfold raise6; split <;> rfl
+
+theorem applyOp_ext (op : TOp) (h : Heap) (cur arg : Val) : Ext h (applyOp op h cur arg).2 := by
+  cases op with
+  | item => simp only [applyOp, guard6_heap, aGetitem_heap]; exact Ext.refl h
+  | bin b => simp only [applyOp, guard6_heap]; exact (good_aBin b h cur arg).1
+  | un u => simp only [applyOp, guard6_heap]; exact (good_aUn u h cur).1
+
+/-- the value of an arithmetic step is a scalar or a new object -/
+theorem applyOp_fresh (op : TOp) (h : Heap) (cur arg v : Val) (hop : op ≠ .item)
+    (hv : (applyOp op h cur arg).1 = .ok v) : FreshFrom h.length v := by
+  cases op with
+  | item => exact absurd rfl hop
+  | bin b => exact (good_aBin b h cur arg).2 v (guard6_ok hv)
+  | un u => exact (good_aUn u h cur).2 v (guard6_ok hv)
+
+theorem mkSeq_ext (k : SeqKind) (h : Heap) (vs : List Val) : Ext h (mkSeq k h vs).2 := by
+  unfold mkSeq
+  repeat' split
+  all_goals first | exact Ext.push _ _ | (rw [raise6_heap]; exact Ext.refl h)
+
+theorem mkSeq_fresh (k : SeqKind) (h : Heap) (vs : List Val) (v : Val) (hv : (mkSeq k h vs).1 = .ok v) :
+    FreshFrom h.length v := by
+  unfold mkSeq at hv
+  repeat' split at hv
+  all_goals first
+    | (simp at hv; subst hv; exact freshFrom_ref _)
+    | (unfold raise6 at hv; split at hv <;> simp at hv)
+
+theorem mkDict6_ext (h : Heap) (kvs : List (Val × Val)) : Ext h (mkDict6 h kvs).2 := by
+  unfold mkDict6
+  split
+  · rw [raise6_heap]; exact Ext.refl h
+  · exact Ext.push _ _
+
+theorem mkDict6_fresh (h : Heap) (kvs : List (Val × Val)) (v : Val) (hv : (mkDict6 h kvs).1 = .ok v) :
+    FreshFrom h.length v := by
+  unfold mkDict6 at hv
+  split at hv
+  · unfold raise6 at hv; split at hv <;> simp at hv
+  · simp at hv; subst hv; exact freshFrom_ref _
+
+theorem mapRun_ext (f : Val → Heap → Out) (hf : ∀ x h, Ext h (f x h).2) :
+    ∀ (xs : List Val) (h : Heap), Ext h (mapRun f xs h).2 := by
+  intro xs
+  induction xs with
+  | nil => intro h; exact Ext.refl h
+  | cons x r ih =>
+    intro h
+    simp only [mapRun]
+    have h1 := hf x h
+    split
+    · rename_i e h1' heq; rw [heq] at h1; exact h1
+    · rename_i v h1' heq
+      rw [heq] at h1
+      have h2 := ih h1'
+      split
+      · rename_i vs h2' heq2; rw [heq2] at h2; exact h1.trans h2
+      · rename_i e h2' heq2; rw [heq2] at h2; exact h1.trans h2
+
+/-! ### the frame theorem, by mutual structural recursion over the syntax -/
+
+mutual
+theorem evalArg_ext : ∀ (sp : Sp) (tgt : Val) (h : Heap), Ext h (evalArg sp tgt h).2
+  | .lit v, tgt, h => by simp only [evalArg]; exact Ext.refl h
+  | .t steps, tgt, h => by simp only [evalArg]; exact tLoop_ext steps tgt tgt h
+  | .seq k xs, tgt, h => by
+    simp only [evalArg]
+    have h1 := evalArgs_ext xs tgt h
+    split
+    · rename_i vs h1' heq; rw [heq] at h1; exact h1.trans (mkSeq_ext _ _ _)
+    · rename_i e h1' heq; rw [heq] at h1; exact h1
+  | .dict es, tgt, h => by
+    simp only [evalArg]
+    have h1 := evalArgPairs_ext es tgt h
+    split
+    · rename_i vs h1' heq; rw [heq] at h1; exact h1.trans (mkDict6_ext _ _)
+    · rename_i e h1' heq; rw [heq] at h1; exact h1
+  | .coalesce subs hd d, tgt, h => by
+    simp only [evalArg]
+    have h1 := coalesceRun_ext subs tgt h
+    split
+    · rename_i r h1' heq; rw [heq] at h1; exact h1
+    · rename_i h1' heq
+      rw [heq] at h1
+      split
+      · exact h1.trans (evalArg_ext d tgt h1')
+      · exact h1
+theorem evalAuto_ext : ∀ (sp : Sp) (tgt : Val) (h : Heap), Ext h (evalAuto sp tgt h).2
+  | .lit v, tgt, h => by simp only [evalAuto]; exact Ext.refl h
+  | .t steps, tgt, h => by simp only [evalAuto]; exact tLoop_ext steps tgt tgt h
+  | .seq k xs, tgt, h => by
+    simp only [evalAuto]
+    cases k with
+    | list => exact listRun_ext xs tgt h
+    | tuple => exact chainRun_ext xs tgt h
+    | set => exact Ext.refl h
+    | fset => exact Ext.refl h
+  | .dict es, tgt, h => by
+    simp only [evalAuto]
+    have h1 := evalAutoPairs_ext es tgt h
+    split
+    · rename_i vs h1' heq; rw [heq] at h1; exact h1.trans (mkDict6_ext _ _)
+    · rename_i e h1' heq; rw [heq] at h1; exact h1
+  | .coalesce subs hd d, tgt, h => by
+    simp only [evalAuto]
+    have h1 := coalesceRun_ext subs tgt h
+    split
+    · rename_i r h1' heq; rw [heq] at h1; exact h1
+    · rename_i h1' heq
+      rw [heq] at h1
+      split
+      · exact h1.trans (evalArg_ext d tgt h1')
+      · exact h1
+theorem evalArgs_ext : ∀ (xs : Sps) (tgt : Val) (h : Heap), Ext h (evalArgs xs tgt h).2
+  | .nil, tgt, h => by simp only [evalArgs]; exact Ext.refl h
+  | .cons x r, tgt, h => by
+    simp only [evalArgs]
+    have h1 := evalArg_ext x tgt h
+    split
+    · rename_i e h1' heq; rw [heq] at h1; exact h1
+    · rename_i v h1' heq
+      rw [heq] at h1
+      have h2 := evalArgs_ext r tgt h1'
+      split
+      · rename_i vs h2' heq2; rw [heq2] at h2; exact h1.trans h2
+      · rename_i e h2' heq2; rw [heq2] at h2; exact h1.trans h2
+theorem evalArgPairs_ext : ∀ (es : Pairs) (tgt : Val) (h : Heap), Ext h (evalArgPairs es tgt h).2
+  | .nil, tgt, h => by simp only [evalArgPairs]; exact Ext.refl h
+  | .cons k v r, tgt, h => by
+    simp only [evalArgPairs]
+    have h1 := evalArg_ext k tgt h
+    split
+    · rename_i e h1' heq; rw [heq] at h1; exact h1
+    · rename_i kv h1' heq
+      rw [heq] at h1
+      have h2 := evalArg_ext v tgt h1'
+      split
+      · rename_i e h2' heq2; rw [heq2] at h2; exact h1.trans h2
+      · rename_i vv h2' heq2
+        rw [heq2] at h2
+        have h3 := evalArgPairs_ext r tgt h2'
+        split
+        · rename_i kvs h3' heq3; rw [heq3] at h3; exact (h1.trans h2).trans h3
+        · rename_i e h3' heq3; rw [heq3] at h3; exact (h1.trans h2).trans h3
+theorem evalAutoPairs_ext : ∀ (es : Pairs) (tgt : Val) (h : Heap), Ext h (evalAutoPairs es tgt h).2
+  | .nil, tgt, h => by simp only [evalAutoPairs]; exact Ext.refl h
+  | .cons k v r, tgt, h => by
+    simp only [evalAutoPairs]
+    have h1 := evalAuto_ext v tgt h
+    split
+    · rename_i e h1' heq; rw [heq] at h1; exact h1
+    · rename_i vv h1' heq
+      rw [heq] at h1
+      have h2 := fieldRun_ext k tgt h1'
+      split
+      · rename_i e h2' heq2; rw [heq2] at h2; exact h1.trans h2
+      · rename_i kv h2' heq2
+        rw [heq2] at h2
+        have h3 := evalAutoPairs_ext r tgt h2'
+        split
+        · rename_i kvs h3' heq3; rw [heq3] at h3; exact (h1.trans h2).trans h3
+        · rename_i e h3' heq3; rw [heq3] at h3; exact (h1.trans h2).trans h3
+theorem fieldRun_ext : ∀ (sp : Sp) (tgt : Val) (h : Heap), Ext h (fieldRun sp tgt h).2
+  | .lit v, tgt, h => by simp only [fieldRun]; exact Ext.refl h
+  | .t steps, tgt, h => by simp only [fieldRun]; exact tLoop_ext steps tgt tgt h
+  | .seq _ _, tgt, h => by simp only [fieldRun]; exact Ext.refl h
+  | .dict _, tgt, h => by simp only [fieldRun]; exact Ext.refl h
+  | .coalesce _ _ _, tgt, h => by simp only [fieldRun]; exact Ext.refl h
+theorem listRun_ext : ∀ (xs : Sps) (tgt : Val) (h : Heap), Ext h (listRun xs tgt h).2
+  | .nil, tgt, h => by simp only [listRun]; exact Ext.refl h
+  | .cons sub r, tgt, h => by
+    simp only [listRun]
+    cases r with
+    | cons _ _ => exact Ext.refl h
+    | nil =>
+      simp only
+      split
+      · exact Ext.refl h
+      · rename_i items _
+        have h1 := mapRun_ext (evalAuto sub) (fun x h => evalAuto_ext sub x h) items h
+        split
+        · rename_i vs h1' heq; rw [heq] at h1; exact h1.trans (Ext.push _ _)
+        · rename_i e h1' heq; rw [heq] at h1; exact h1
+theorem chainRun_ext : ∀ (xs : Sps) (tgt : Val) (h : Heap), Ext h (chainRun xs tgt h).2
+  | .nil, tgt, h => by simp only [chainRun]; exact Ext.refl h
+  | .cons x r, tgt, h => by
+    simp only [chainRun]
+    have h1 := evalAuto_ext x tgt h
+    split
+    · rename_i e h1' heq; rw [heq] at h1; exact h1
+    · rename_i v h1' heq; rw [heq] at h1; exact h1.trans (chainRun_ext r v h1')
+theorem coalesceRun_ext : ∀ (xs : Sps) (tgt : Val) (h : Heap), Ext h (coalesceRun xs tgt h).2
+  | .nil, tgt, h => by simp only [coalesceRun]; exact Ext.refl h
+  | .cons x r, tgt, h => by
+    simp only [coalesceRun]
+    have h1 := evalAuto_ext x tgt h
+    split
+    · rename_i v h1' heq; rw [heq] at h1; exact h1
+    · rename_i c h1' heq; rw [heq] at h1; exact h1.trans (coalesceRun_ext r tgt h1')
+    · rename_i e h1' _ heq; rw [heq] at h1; exact h1
+theorem tLoop_ext : ∀ (steps : Steps) (tgt cur : Val) (h : Heap), Ext h (tLoop steps tgt cur h).2
+  | .nil, tgt, cur, h => by simp only [tLoop]; exact Ext.refl h
+  | .cons op a r, tgt, cur, h => by
+    simp only [tLoop]
+    have h1 := evalArg_ext a tgt h
+    split
+    · rename_i e h1' heq; rw [heq] at h1; exact h1
+    · rename_i av h1' heq
+      rw [heq] at h1
+      have h2 := applyOp_ext op h1' cur av
+      split
+      · rename_i v h2' heq2; rw [heq2] at h2; exact (h1.trans h2).trans (tLoop_ext r tgt v h2')
+      · rename_i e h2' heq2; rw [heq2] at h2; exact h1.trans h2
+end
+
+
+/-! ### results that Python / glom builds anew are not old objects -/
+
+theorem tLoop_fresh : ∀ (steps : Steps) (tgt cur : Val) (h : Heap) (v : Val) (h' : Heap),
+    tLoop steps tgt cur h = (.ok v, h') → steps.endsArith = true → FreshFrom h.length v
+  | .nil, tgt, cur, h, v, h', _, hn => by simp [Steps.endsArith] at hn
+  | .cons op a r, tgt, cur, h, v, h', he, hn => by
+    simp only [tLoop] at he
+    have h1 := evalArg_ext a tgt h
+    split at he
+    · cases he
+    · rename_i av h1' heq
+      rw [heq] at h1
+      have h2 := applyOp_ext op h1' cur av
+      split at he
+      · rename_i v1 h2' heq2
+        rw [heq2] at h2
+        cases r with
+        | nil =>
+          simp only [tLoop] at he
+          cases he
+          have hop : op ≠ .item := by
+            intro hh; subst hh; simp [Steps.endsArith] at hn
+          have := applyOp_fresh op h1' cur av v hop (by rw [heq2])
+          exact this.mono h1.length_le
+        | cons op2 a2 r2 =>
+          have hn' : (Steps.cons op2 a2 r2).endsArith = true := by
+            simpa [Steps.endsArith] using hn
+          have := tLoop_fresh (.cons op2 a2 r2) tgt v1 h2' v h' he hn'
+          exact this.mono (h1.trans h2).length_le
+      · cases he
+
+mutual
+theorem evalArg_fresh : ∀ (sp : Sp) (tgt : Val) (h : Heap) (v : Val) (h' : Heap),
+    evalArg sp tgt h = (.ok v, h') → sp.newArg = true → FreshFrom h.length v
+  | .lit w, tgt, h, v, h', he, hn => by
+    simp only [evalArg] at he
+    cases he
+    intro a ha
+    subst ha
+    simp [Sp.newArg] at hn
+  | .t steps, tgt, h, v, h', he, hn => by
+    simp only [evalArg] at he
+    simp only [Sp.newArg] at hn
+    exact tLoop_fresh steps tgt tgt h v h' he hn
+  | .seq k xs, tgt, h, v, h', he, _ => by
+    simp only [evalArg] at he
+    have h1 := evalArgs_ext xs tgt h
+    split at he
+    · rename_i vs h1' heq
+      rw [heq] at h1
+      exact (mkSeq_fresh k h1' vs v (by rw [he])).mono h1.length_le
+    · cases he
+  | .dict es, tgt, h, v, h', he, _ => by
+    simp only [evalArg] at he
+    have h1 := evalArgPairs_ext es tgt h
+    split at he
+    · rename_i kvs h1' heq
+      rw [heq] at h1
+      exact (mkDict6_fresh h1' kvs v (by rw [he])).mono h1.length_le
+    · cases he
+  | .coalesce subs hd d, tgt, h, v, h', he, hn => by
+    simp only [evalArg] at he
+    simp only [Sp.newArg, Bool.and_eq_true, Bool.or_eq_true, Bool.not_eq_true'] at hn
+    have h1 := coalesceRun_ext subs tgt h
+    split at he
+    · rename_i r h1' heq
+      cases he
+      exact coalesceRun_fresh subs tgt h v h' heq hn.1
+    · rename_i h1' heq
+      rw [heq] at h1
+      split at he
+      · rename_i hhd
+        rcases hn.2 with hf | hd'
+        · rw [hhd] at hf; cases hf
+        · exact (evalArg_fresh d tgt h1' v h' he hd').mono h1.length_le
+      · cases he
+theorem evalAuto_fresh : ∀ (sp : Sp) (tgt : Val) (h : Heap) (v : Val) (h' : Heap),
+    evalAuto sp tgt h = (.ok v, h') → sp.mustBeNew = true → FreshFrom h.length v
+  | .lit w, tgt, h, v, h', he, hn => by simp [Sp.mustBeNew] at hn
+  | .t steps, tgt, h, v, h', he, hn => by
+    simp only [evalAuto] at he
+    simp only [Sp.mustBeNew] at hn
+    exact tLoop_fresh steps tgt tgt h v h' he hn
+  | .seq k xs, tgt, h, v, h', he, hn => by
+    simp only [evalAuto] at he
+    cases k with
+    | list =>
+      simp only at he
+      cases xs with
+      | nil => simp only [listRun] at he; cases he
+      | cons sub r =>
+        simp only [listRun] at he
+        cases r with
+        | cons _ _ => cases he
+        | nil =>
+          simp only at he
+          split at he
+          · cases he
+          · rename_i items _
+            have h1 := mapRun_ext (evalAuto sub) (fun x h => evalAuto_ext sub x h) items h
+            split at he
+            · rename_i vs h1' heq
+              rw [heq] at h1
+              cases he
+              exact (freshFrom_ref _).mono h1.length_le
+            · cases he
+    | tuple =>
+      simp only at he
+      simp only [Sp.mustBeNew] at hn
+      exact chainRun_fresh xs tgt h v h' he hn
+    | set => simp [Sp.mustBeNew] at hn
+    | fset => simp [Sp.mustBeNew] at hn
+  | .dict es, tgt, h, v, h', he, _ => by
+    simp only [evalAuto] at he
+    have h1 := evalAutoPairs_ext es tgt h
+    split at he
+    · rename_i kvs h1' heq
+      rw [heq] at h1
+      exact (mkDict6_fresh h1' kvs v (by rw [he])).mono h1.length_le
+    · cases he
+  | .coalesce subs hd d, tgt, h, v, h', he, hn => by
+    simp only [evalAuto] at he
+    simp only [Sp.mustBeNew, Bool.and_eq_true, Bool.or_eq_true, Bool.not_eq_true'] at hn
+    have h1 := coalesceRun_ext subs tgt h
+    split at he
+    · rename_i r h1' heq
+      cases he
+      exact coalesceRun_fresh subs tgt h v h' heq hn.1
+    · rename_i h1' heq
+      rw [heq] at h1
+      split at he
+      · rename_i hhd
+        rcases hn.2 with hf | hd'
+        · rw [hhd] at hf; cases hf
+        · exact (evalArg_fresh d tgt h1' v h' he hd').mono h1.length_le
+      · cases he
+theorem chainRun_fresh : ∀ (xs : Sps) (tgt : Val) (h : Heap) (v : Val) (h' : Heap),
+    chainRun xs tgt h = (.ok v, h') → xs.lastNew = true → FreshFrom h.length v
+  | .nil, tgt, h, v, h', he, hn => by simp [Sps.lastNew] at hn
+  | .cons x r, tgt, h, v, h', he, hn => by
+    simp only [chainRun] at he
+    have h1 := evalAuto_ext x tgt h
+    split at he
+    · cases he
+    · rename_i v1 h1' heq
+      rw [heq] at h1
+      cases r with
+      | nil =>
+        simp only [chainRun] at he
+        cases he
+        simp only [Sps.lastNew] at hn
+        exact evalAuto_fresh x tgt h v h' heq hn
+      | cons y r2 =>
+        simp only [Sps.lastNew] at hn
+        exact (chainRun_fresh (.cons y r2) v1 h1' v h' he hn).mono h1.length_le
+theorem coalesceRun_fresh : ∀ (xs : Sps) (tgt : Val) (h : Heap) (v : Val) (h' : Heap),
+    coalesceRun xs tgt h = (some (.ok v), h') → xs.allNew = true → FreshFrom h.length v
+  | .nil, tgt, h, v, h', he, hn => by simp [coalesceRun] at he
+  | .cons x r, tgt, h, v, h', he, hn => by
+    simp only [coalesceRun] at he
+    simp only [Sps.allNew, Bool.and_eq_true] at hn
+    have h1 := evalAuto_ext x tgt h
+    split at he
+    · rename_i v1 h1' heq
+      cases he
+      exact evalAuto_fresh x tgt h v h' heq hn.1
+    · rename_i c h1' heq
+      rw [heq] at h1
+      exact (coalesceRun_fresh r tgt h1' v h' he hn.2).mono h1.length_le
+    · cases he
+end
+
+
+/-! ### what an observer sees is preserved by a growing heap -/
+
+theorem optMapM_mono {α β : Type} (f g : α → Option β) (hfg : ∀ x y, f x = some y → g x = some y) :
+    ∀ (xs : List α) (ys : List β), optMapM f xs = some ys → optMapM g xs = some ys := by
+  intro xs
+  induction xs with
+  | nil => intro ys h; exact h
+  | cons x r ih =>
+    intro ys h
+    simp only [optMapM] at h ⊢
+    cases hx : f x with
+    | none => rw [hx] at h; simp at h
+    | some y =>
+      cases hr : optMapM f r with
+      | none => rw [hx, hr] at h; simp at h
+      | some ys' =>
+        rw [hx, hr] at h
+        rw [hfg x y hx, ih ys' hr]
+        exact h
+
+theorem view6_ext {h h' : Heap} (hext : Ext h h') :
+    ∀ (fuel : Nat) (v : Val) (p : PV), view6 h fuel v = some p → view6 h' fuel v = some p := by
+  intro fuel
+  induction fuel with
+  | zero =>
+    intro v p hv
+    unfold view6 at hv ⊢
+    cases hs : scalarPV v with
+    | some q => rw [hs] at hv; exact hv
+    | none =>
+      rw [hs] at hv
+      cases v <;> first | (simp [scalarPV] at hs; done) | (simp at hv; done)
+  | succ fuel ih =>
+    intro v p hv
+    unfold view6 at hv ⊢
+    cases hs : scalarPV v with
+    | some q => rw [hs] at hv; exact hv
+    | none =>
+      rw [hs] at hv
+      cases v with
+      | ref a =>
+        simp only at hv ⊢
+        cases ha : h[a]? with
+        | none => rw [ha] at hv; simp at hv
+        | some o =>
+          have hlt : a < h.length := by
+            rcases Nat.lt_or_ge a h.length with hl | hl
+            · exact hl
+            · rw [List.getElem?_eq_none hl] at ha; cases ha
+          have ha' : h'[a]? = some o := by rw [hext.get a hlt, ha]
+          rw [ha] at hv
+          rw [ha']
+          have mono := optMapM_mono (view6 h fuel) (view6 h' fuel) ih
+          cases o with
+          | list c xs =>
+            simp only [Option.map_eq_some_iff] at hv ⊢
+            obtain ⟨ys, h1, h2⟩ := hv
+            exact ⟨ys, mono _ _ h1, h2⟩
+          | tuple c xs =>
+            simp only [Option.map_eq_some_iff] at hv ⊢
+            obtain ⟨ys, h1, h2⟩ := hv
+            exact ⟨ys, mono _ _ h1, h2⟩
+          | set c xs =>
+            simp only [Option.map_eq_some_iff] at hv ⊢
+            obtain ⟨ys, h1, h2⟩ := hv
+            exact ⟨ys, mono _ _ h1, h2⟩
+          | dict c es =>
+            simp only at hv ⊢
+            cases hk : optMapM (view6 h fuel) (es.map (·.1)) with
+            | none => rw [hk] at hv; simp at hv
+            | some ks =>
+              cases hvv : optMapM (view6 h fuel) (es.map (·.2)) with
+              | none => rw [hk, hvv] at hv; simp at hv
+              | some vs =>
+                rw [hk, hvv] at hv
+                rw [mono _ _ hk, mono _ _ hvv]
+                exact hv
+          | inst c attrs =>
+            simp only [Option.map_eq_some_iff] at hv ⊢
+            obtain ⟨ys, h1, h2⟩ := hv
+            exact ⟨ys, mono _ _ h1, h2⟩
+      | _ => simp [scalarPV] at hs
+
+theorem runCalls_ext : ∀ (calls : List (Sp × Val)) (h : Heap), Ext h (runCalls calls h) := by
+  intro calls
+  induction calls with
+  | nil => intro h; exact Ext.refl h
+  | cons c r ih =>
+    intro h
+    simp only [runCalls]
+    exact (evalAuto_ext c.1 c.2 h).trans (ih _)
 
 end Glom.C06
